@@ -227,7 +227,8 @@ var ErrSimTemporary error = &simNetError{msg: "simdisk: resource temporarily una
 type WriteFault struct {
 	After int  `json:"after"`
 	Once  bool `json:"once,omitempty"`
-	Temp  bool `json:"temp,omitempty"` // the error describes itself as Temporary()/Timeout()
+	Temp  bool `json:"temp,omitempty"`  // the error describes itself as Temporary()/Timeout()
+	Short bool `json:"short,omitempty"` // the error is io.ErrShortWrite (a size-limited writer, a pipe)
 }
 
 // SimWriter records what it receives, is a scheduling point on every call and
@@ -239,15 +240,26 @@ type SimWriter struct {
 	Fault   *WriteFault
 	Fired   int
 	Syncs   int
+	Truncs  int
 	OnWrite func(callIdx, bytesBefore int) // invoked before each write is applied (cancellation triggers)
 }
 
 func NewSimWriter(sched *Sched) *SimWriter { return &SimWriter{sched: sched} }
 
-// Truncate makes the writer an empty healthy file again (the same object: a
+// Rewind makes the writer an empty healthy file again (the same object: a
 // caller that truncates its file and retries).
-func (w *SimWriter) Truncate() {
+func (w *SimWriter) Rewind() {
 	w.Buf, w.Calls, w.Fault, w.Fired, w.OnWrite = nil, 0, nil, 0, nil
+}
+
+// Truncate is what *os.File offers: code that probes its destination for it
+// gets a file that is cut to size.
+func (w *SimWriter) Truncate(size int64) error {
+	w.Truncs++
+	if size >= 0 && size < int64(len(w.Buf)) {
+		w.Buf = w.Buf[:size]
+	}
+	return nil
 }
 
 // Sync makes the simulated file look like an *os.File to code that probes its
@@ -276,6 +288,9 @@ func (w *SimWriter) Write(p []byte) (int, error) {
 		w.sched.note(evFault, 100)
 		if f.Temp {
 			return n, ErrSimTemporary
+		}
+		if f.Short {
+			return n, io.ErrShortWrite
 		}
 		if f.Once {
 			return n, ErrSimInterrupted
